@@ -1,5 +1,5 @@
 (* what the fragment asks of the span token types: the conditions of the sentence theorems its leaves rest on *)
 From Coq Require Import ZArith List Bool.
-From Mistletoe Require Import Base.Sx Gen.GenConfig Proofs.RefSentence Proofs.CodeSpan Proofs.StrikeSentence Proofs.EscSentence.
+From Mistletoe Require Import Base.Sx Gen.GenConfig Proofs.RefSentence Proofs.CodeSpan Proofs.StrikeSentence Proofs.EscSentence Proofs.AutoLinkSentence.
 Definition leaf_spans (types : list span_kind) : bool :=
-  ref_spans types && code_spans types && strike_spans types && esc_spans types.
+  ref_spans types && code_spans types && strike_spans types && esc_spans types && auto_spans types.
